@@ -9,6 +9,8 @@ Ties to /repo, re-run on every check:
     pipes; the feasible orders are enumerated by the Lean model), in two
     gating modes; canonical outputs must be identical to the ungated run;
   * the same stages in subprocesses under PYTHONHASHSEED in {0,1,2,random};
+  * seed values: two runs each with rng_seed in {0, 1, 2**32-1, 11235813}
+    (falsy-but-legal values of an option must behave like any other);
   * host independence: the mapping with n_processors in {17, 24, 40} (more
     than this machine's cores), chunk_size large: chunks as documented for the
     configured count, output equal to the run with the equivalent explicit
@@ -359,6 +361,48 @@ def check_host(ctx, prob_seed, procs=(17, 24, 40), simulate=True, st=None):
                              detail['differs_in']), detail)
 
 
+SEED_VALUES = (0, 1, 2 ** 32 - 1, 11235813)
+
+
+def check_seed_values(ctx, prob_seed, n_leaves=6, st=None, seeds=SEED_VALUES):
+    """same inputs, same configuration, same seed => same result, for the
+    seed values a user can legally configure - in particular the falsy-but-
+    legal 0, the smallest positive, the largest 32-bit and the documented
+    default.  Two runs per value; the generator states handed to the workers
+    must also be the k-th draws of default_rng(<that seed>)."""
+    if st is None:
+        prob = c14suite.make_problem(prob_seed, n_leaves)
+        with pipeline.workdir('ctmverif_c04_') as d:
+            with pipeline.quiet():
+                st = stagefix.Mapping(prob, d)
+            return check_seed_values(ctx, prob_seed, n_leaves, st, seeds)
+    saved = st.rng_seed
+    try:
+        outs = {}
+        for seed in seeds:
+            st.rng_seed = seed
+            detail = {'kind': 'seed_value', 'prob_seed': prob_seed,
+                      'n_leaves': n_leaves, 'n_processors': 2,
+                      'rng_seed': seed}
+            c14suite.clear(st)
+            run_plain(st, 2, ctx, detail)
+            first = canon_of(st, 'mapping')
+            c14suite.clear(st)
+            run_plain(st, 2, ctx, detail)
+            second = canon_of(st, 'mapping')
+            ctx.case(('seed_value', prob_seed, seed), sample=detail)
+            ctx.count('seed-value:%d' % seed)
+            outs[seed] = first
+            if first != second:
+                detail['differs_in'] = diff_keys(first, second)[:8]
+                ctx.violation('C04/seed-value/rerun-differs',
+                              'mapping with rng_seed=%d: two runs on the same '
+                              'inputs and configuration differ in %s'
+                              % (seed, detail['differs_in']), detail)
+    finally:
+        st.rng_seed = saved
+
+
 def check_reorder(ctx, rng, n_cases):
     """re_order_blob vs the model (and an independent statement of it)"""
     from cell_type_mapper.utils import output_utils
@@ -663,6 +707,7 @@ def run(ctx):
     check_reorder(ctx, rng, 300 if ctx.tier == 'quick' else 2000)
     check_marker_cache_order(ctx, rng, 40 if ctx.tier == 'quick' else 300)
     check_host(ctx, rng.randrange(2 ** 31))
+    check_seed_values(ctx, rng.randrange(2 ** 31))
     if ctx.tier == 'quick':
         run_problem(ctx, rng.randrange(2 ** 31), rng.choice([7, 8]), 3,
                     n_orders=5, hash_seeds=['0', '1', '2', '3'],
@@ -709,6 +754,9 @@ def replay(ctx, data, from_corpus=False):
                 if canon_of(st, d['fixture']) != base:
                     ctx.violation('C04/rerun/%s/output-differs'
                                   % d['fixture'], 'replayed', d)
+    elif kind == 'seed_value':
+        check_seed_values(ctx, d['prob_seed'], d.get('n_leaves', 6),
+                          seeds=(d['rng_seed'],))
     elif kind == 'host':
         if d.get('simulated_cores'):
             check_host(ctx, d['prob_seed'], procs=(), simulate=True)
